@@ -181,6 +181,18 @@ def judge_components(ctx, model, contribs, ops, cias, spec, wn):
             ctx.close('sigma-is-sum-of-components', sigma, total, 1e-12, contrib=kls, ncomp=len(comps))
         else:
             ctx.check('sigma-is-sum-of-components', sigma is None or not np.any(sigma), contrib=kls, ncomp=0)
+        # completeness: every species that is present (a mixing ratio above zero in some layer) and has opacity data
+        # yields its component -- however small the abundance; a missing component cannot be judged by its value
+        names = [nm for nm, _ in comps]
+        if kls == 'AbsorptionContribution':
+            need = [m for m in ops if m in mix and float(np.max(mix[m])) > 0.0]
+            ctx.check('every-present-species-yields-a-component', all(m in names for m in need), contrib=kls,
+                      missing=[m for m in need if m not in names],
+                      abundances={m: float(np.max(mix[m])) for m in need if m not in names})
+        elif kls == 'CIAContribution':
+            need = [pr for pr in cias]
+            ctx.check('every-present-species-yields-a-component', all(pr in names for pr in need), contrib=kls,
+                      missing=[pr for pr in need if pr not in names])
         for nm, arr in comps:
             if kls == 'AbsorptionContribution':
                 op = ops[nm]
